@@ -233,6 +233,10 @@ def gen_cases(ctx):
                 cases.append({"type": "logcfg", "kind": kind, "max_count": mc, "num_reserved": nr})
         for mc, nr in ((255, 1), (256, 0), (256, 50), (100, 0), (65535, 1023), (65536, 0)):
             cases.append({"type": "logcfg", "kind": kind, "max_count": mc, "num_reserved": nr})
+        # near-degenerate: max_count barely above the number of counter values (base within 1e-6 of 1)
+        um = UMAX[kind]
+        for _ in range(25):
+            cases.append({"type": "logcfg", "kind": kind, "max_count": um + int(rng.integers(-3, 400)), "num_reserved": int(rng.integers(0, um))})
     n_mono = 150 if q else 600
     for i in range(n_mono):
         kind = ("linear", "log8", "log16")[i % 3]
